@@ -9,7 +9,7 @@ VARIABLE l
 
 Rng(s) == { s[i] : i \in 1..Len(s) }
 IsEv(k) == l <= Len(Log) /\ Log[l].ev = k /\ l' = l + 1
-Skipped == {"lookup", "sync_deleted", "restart"}
+Skipped == {"lookup", "sync_deleted"}
 
 CloudOf(lst) == [e \in Enis |-> IF \E i \in 1..Len(lst) : lst[i].e = e
                                 THEN LET x == lst[CHOOSE i \in 1..Len(lst) : lst[i].e = e] IN
@@ -42,6 +42,7 @@ TFlush   == IsEv("flush") /\ Flush(Log[l].ok)
 TExist   == IsEv("pod_exist") /\ PodExist(Log[l].p, Log[l].res)
 TGcDone  == IsEv("daemon_gc") /\ GcDone
 TRt      == IsEv("rt") /\ RtWrite(Log[l].by, RtOf(Log[l].pods), PnOf(Log[l].pods), Rng(Log[l].local))
+TRestart == IsEv("restart") /\ Restart
 TRecB    == IsEv("reconcile_begin") /\ ReconcileBegin
 TCrW     == IsEv("cr_write") /\ CrWrite(Log[l].ok)
 TEarly   == IsEv("describe_fail") /\ EarlyReturn
@@ -69,7 +70,7 @@ TSynced  == IsEv("synced") /\ LET e == Log[l] IN
 
 TInit == Init /\ l = 1
 TNext == TReset \/ TSkip \/ TPodC \/ TPodG \/ TPodX \/ TPodR \/ TCniAdd \/ TCniDel \/ TFlush \/ TExist \/ TGcDone \/ TRt
-         \/ TRecB \/ TCrW \/ TEarly \/ TCr \/ TCreateB \/ TCreateE \/ TAttach \/ TAssignB \/ TAssignE \/ TUnassB \/ TUnassE
+         \/ TRestart \/ TRecB \/ TCrW \/ TEarly \/ TCr \/ TCreateB \/ TCreateE \/ TAttach \/ TAssignB \/ TAssignE \/ TUnassB \/ TUnassE
          \/ TDetach \/ TDeleteB \/ TDeleteE \/ TDescr \/ TDriftR \/ TDriftA \/ TDrain \/ TFix \/ TSynced
 TSpec == TInit /\ [][TNext]_<<vars, l>>
 
